@@ -54,7 +54,7 @@ def build_doc(seed):
         "name_kinds": {"nsobj": 6, "pl": 2},
         "formal_as": {"nsobj": 4, "pl": 1, "rec": 2},
         "value_kinds": {"s": 6, "i": 2, "b": 2, "dt": 2, "uri": 1, "qnv": 2, "lang": 3},
-        "mask": "first2", "mention": False, "attr_prov": 0.2, "p_clash": 0.0,
+        "mask": "first2", "mention": False, "attr_prov": 0.2, "p_clash": 0.0, "rdf_safe": True,
         "kinds": ["entity", "activity", "agent", "generation", "usage", "communication", "start", "end",
                   "invalidation", "derivation", "attribution", "association", "delegation"],
     })
@@ -86,7 +86,8 @@ def c14n(data):
     return etree.tostring(etree.fromstring(data), method="c14n")
 
 
-def obs_or_exc(thunk):
+def obs_or_exc(thunk, seed=0):
+    seams.reseed_uuid(seed + 1)  # every reader cell sees the same blank-node id stream
     try:
         r = thunk()
     except Exception as e:
@@ -116,6 +117,8 @@ def run_state(seed, tier):
             "signature": ["C16", inv, cause], "detail": detail, "facts": {"encoding": enc, "cause": cause}, "count": 1,
         })
 
+    from .c07 import rdf_ineligible
+    rdf_why = rdf_ineligible(d)
     sb = Sandbox()
     try:
         sim = iosim.FsSim(sb.tmp, plan={}, encoding=enc)
@@ -176,7 +179,12 @@ def run_state(seed, tier):
                 if fmt == "provn":
                     continue
                 # ------------------------------------------------------- sources
-                base = obs_or_exc(lambda: ProvDocument.deserialize(content=s0, format=fmt))
+                if fmt == "rdf" and rdf_why is not None:
+                    # outside C07's space the RDF reader's result depends on blank-node
+                    # naming; C16 quantifies over the intersection of the C01/C02/C07 spaces
+                    stats["skipped_formats"]["rdf-read-ineligible"] = rdf_why
+                    continue
+                base = obs_or_exc(lambda: ProvDocument.deserialize(content=s0, format=fmt), seed)
                 cell("%s:src:content-str" % fmt)
                 if base[0] != "ok":
                     stats["skipped_formats"][fmt + "-read"] = base[1]
@@ -223,7 +231,7 @@ def run_state(seed, tier):
                 }
                 for kind, thunk in sources.items():
                     cell("%s:src:%s" % (fmt, kind))
-                    got = obs_or_exc(thunk)
+                    got = obs_or_exc(thunk, seed)
                     if got != base:
                         cause = "%s-%s" % (fmt, kind)
                         if got[0] == "exc":
